@@ -131,7 +131,7 @@ func compare(rec *opRec, got *xmltree.Node, streamNS string, s2s bool, local str
 // partialForms are calls that fail (or are abandoned) in the middle of their
 // element.
 var partialForms = []string{"Send:reader-fails", "SendElement:payload-reader-fails", "Encode:xmlstream.Marshaler-fails", "Encode:xmlstream.WriterTo-fails", "TokenWriter:closed-mid-element",
-	"Send:reader-ends-with-element-open", "SendElement:payload-ends-with-element-open"}
+	"Send:reader-ends-with-element-open", "SendElement:payload-ends-with-element-open", "Send:context-ends-while-write-blocked"}
 
 var errPartial = errors.New("verif: injected failure in mid-element")
 
@@ -194,10 +194,11 @@ func doPartial(s *xmpp.Session, form string) error {
 }
 
 type handlerLog struct {
-	mu        sync.Mutex
-	ops       []*opRec
-	refused   int // handler invocations that first attempted refused writes
-	abandoned int // handler invocations that stopped in the middle of their reply
+	mu             sync.Mutex
+	ops            []*opRec
+	refused        int // handler invocations that first attempted refused writes
+	abandoned      int // handler invocations that stopped in the middle of their reply
+	abandonedOther int // handler invocations that stopped in the middle of another element and left the request to the session
 }
 
 // ownCases is the number of transmit histories; after them come histories of
@@ -220,6 +221,11 @@ func closeCases(tier string) int {
 }
 
 func keepClose(key string) bool {
+	if key == "close:malformed:stream-error-cut-by-closing-tag" {
+		// the session's own stream error, cut by the closing tag: no transmit
+		// call's element (a recorded finding of C10)
+		return false
+	}
 	for _, p := range []string{"close:ok-not-on-wire", "close:malformed", "close:after-tag", "close:written-after", "panic:", "fatal:", "race:"} {
 		if strings.HasPrefix(key, p) {
 			return true
@@ -314,6 +320,22 @@ func runHistory(c *core.Case) {
 			Kids: []any{&elem{Name: xml.Name{Space: nsTop, Local: "r"}, Kids: []any{"reply " + marker}}}}
 		var err error
 		switch mode {
+		case "abandoned-other":
+			// the handler gives up in the middle of another element (a notification
+			// it was relaying) and does not answer the request: the session's own
+			// reply must still be an element of the stream, not of that element
+			rec.partial, rec.Entry, rec.stanza = true, "Partial", true
+			note := &elem{Name: xml.Name{Local: "message"}, Attrs: []xml.Attr{attr("to", from), attr(markAtt, marker)},
+				Kids: []any{&elem{Name: xml.Name{Local: "body"}, Kids: []any{"relayed for " + marker}}}}
+			toks := note.tokens(nil)
+			for _, tok := range toks[:len(toks)-2] {
+				if err = t.EncodeToken(tok); err != nil {
+					break
+				}
+			}
+			hl.mu.Lock()
+			hl.abandonedOther++
+			hl.mu.Unlock()
 		case "abandoned":
 			// the handler gives up in the middle of its reply: the session must
 			// not let later elements become children of the unfinished one
@@ -425,11 +447,11 @@ func runHistory(c *core.Case) {
 	go func() {
 		defer wg.Done()
 		ir := core.NewRand(core.SubSeed(c.Seed, "C05", c.Index, "inject"))
-		modes := []string{"tokens", "encode", "encodeelement", "none", "refused+tokens", "abandoned"}
+		modes := []string{"tokens", "encode", "encodeelement", "none", "refused+tokens", "abandoned", "abandoned-other"}
 		for k := 0; k < nInject; k++ {
 			id := fmt.Sprintf("h%d", k)
 			m := modes[ir.Intn(len(modes))]
-			if o.Component && m == "none" {
+			if o.Component && (m == "none" || m == "abandoned-other") {
 				// automatic replies are a matter of the client and server
 				// namespaces (C07)
 				m = "tokens"
@@ -474,7 +496,7 @@ func runHistory(c *core.Case) {
 		p.Lib.Close()
 		return
 	}
-	// ---- final phase (a third of the histories, the seven forms in turn): one call that fails in the
+	// ---- final phase (a third of the histories, the eight forms in turn): one call that fails in the
 	// middle of its element, then ordinary calls, which must be complete
 	// top-level elements like any other successful call
 	partialForm := ""
@@ -483,7 +505,22 @@ func runHistory(c *core.Case) {
 		var fin []*opRec
 		prec := &opRec{Actor: nActors, N: 0, Marker: "partial", Entry: "Partial", Form: partialForm, stanza: true, partial: true, TCall: clock.Add(1)}
 		var perr error
-		if c.Guard("Partial:"+partialForm, func() { perr = doPartial(p.S, partialForm) }) {
+		if c.Guard("Partial:"+partialForm, func() {
+			if partialForm == "Send:context-ends-while-write-blocked" {
+				// the peer does not read for a while and the call's context ends
+				// while its write is blocked: the write times out.  The calls that
+				// follow have live contexts; whatever they return, a nil must mean
+				// that their element is on the wire.
+				ctx, cancel := context.WithTimeout(context.Background(), 20*time.Millisecond)
+				defer cancel()
+				p.Lib.StallWrites(true)
+				defer p.Lib.StallWrites(false)
+				start := xml.StartElement{Name: xml.Name{Local: "message"}, Attr: []xml.Attr{attr(markAtt, "partial"), attr("type", "chat")}}
+				perr = p.S.Send(ctx, reader([]xml.Token{start, start.End()}))
+				return
+			}
+			perr = doPartial(p.S, partialForm)
+		}) {
 			prec.Err = "panic"
 		} else if perr != nil {
 			prec.Err = perr.Error()
@@ -576,6 +613,7 @@ func runHistory(c *core.Case) {
 	}
 	c.Count("handler_replies_after_refused_writes", hl.refused)
 	c.Count("handler_replies_abandoned_in_mid_element", hl.abandoned)
+	c.Count("handlers_that_abandon_another_element_and_leave_the_reply_to_the_session", hl.abandonedOther)
 	for _, rec := range hl.ops {
 		all[rec.Marker] = rec
 		flat = append(flat, rec)
@@ -602,6 +640,23 @@ func runHistory(c *core.Case) {
 				c.Violate("wire:any:no-from", "s2s stanza on the wire without from: %s", trunc(el.String()))
 			}
 		}
+		// the session's own replies are elements of the stream: never part of
+		// an element that some call left unfinished
+		var walk func(n *xmltree.Node)
+		walk = func(n *xmltree.Node) {
+			for _, k := range n.Children() {
+				if k.Name.Local == "iq" && k.Attr("type") == "error" {
+					injMu.Lock()
+					mode, ok := injMode[k.Attr("id")]
+					injMu.Unlock()
+					if ok && (mode == "none" || mode == "abandoned-other") {
+						c.Violate("wire:auto-reply:inside-another-element", "the session's reply to request %s is not a top-level element: %s", k.Attr("id"), trunc(el.String()))
+					}
+				}
+				walk(k)
+			}
+		}
+		walk(el)
 		i := sort.SearchInts(marks, int(el.Offset)+1)
 		if i < len(marks) && int64(marks[i]) < el.End {
 			multiWrite++
@@ -613,7 +668,7 @@ func runHistory(c *core.Case) {
 			injMu.Lock()
 			mode, ok := injMode[id]
 			injMu.Unlock()
-			if el.Name.Local == "iq" && el.Attr("type") == "error" && ok && mode == "none" {
+			if el.Name.Local == "iq" && el.Attr("type") == "error" && ok && (mode == "none" || mode == "abandoned-other") {
 				c.Count("auto_replies", 1)
 				delete(injMode, id)
 				order = append(order, "s")
@@ -660,7 +715,7 @@ func runHistory(c *core.Case) {
 			// the call that was made to fail half-way: what it left on the wire (a
 			// truncated but closed element, or nothing) is not judged, the calls
 			// after it are
-			if rec.Err == "" && rec.Form != "TokenWriter:closed-mid-element" && rec.Form != "abandoned" {
+			if rec.Err == "" && rec.Form != "TokenWriter:closed-mid-element" && rec.Form != "abandoned" && rec.Form != "abandoned-other" {
 				c.Violate("wire:partial-accepted:"+rec.Form, "%s returned nil although its argument failed half-way", rec.Form)
 			}
 			continue
@@ -762,7 +817,7 @@ func trunc(s string) string {
 
 // Prop returns the C05 check.
 func Prop() *core.Prop {
-	req := []string{"histories", "histories_with_transmits_racing_close", "C10/transmits_overlapping_a_close", "sessions_from_the_default_negotiator", "s2s_sessions_whose_peer_header_omits_to", "histories_with_partial_failure", "partial:Send:reader-fails", "partial:SendElement:payload-reader-fails", "partial:Encode:xmlstream.Marshaler-fails", "partial:Encode:xmlstream.WriterTo-fails", "partial:TokenWriter:closed-mid-element", "partial:Send:reader-ends-with-element-open", "partial:SendElement:payload-ends-with-element-open", "component_streams", "invalid_argument_calls", "incoming_stanzas_nobody_answers", "handler_replies_after_refused_writes", "handler_replies_abandoned_in_mid_element", "calls_overlapping_another_actor", "elements_spanning_several_writes", "auto_replies", "wire_stanzas"}
+	req := []string{"histories", "histories_with_transmits_racing_close", "C10/transmits_overlapping_a_close", "sessions_from_the_default_negotiator", "s2s_sessions_whose_peer_header_omits_to", "histories_with_partial_failure", "partial:Send:reader-fails", "partial:SendElement:payload-reader-fails", "partial:Encode:xmlstream.Marshaler-fails", "partial:Encode:xmlstream.WriterTo-fails", "partial:TokenWriter:closed-mid-element", "partial:Send:reader-ends-with-element-open", "partial:SendElement:payload-ends-with-element-open", "partial:Send:context-ends-while-write-blocked", "component_streams", "invalid_argument_calls", "incoming_stanzas_nobody_answers", "handler_replies_after_refused_writes", "handler_replies_abandoned_in_mid_element", "handlers_that_abandon_another_element_and_leave_the_reply_to_the_session", "calls_overlapping_another_actor", "elements_spanning_several_writes", "auto_replies", "wire_stanzas"}
 	for _, e := range []string{"Send", "SendElement", "Encode", "EncodeElement", "TokenWriter", "HandlerReply",
 		"SendIQ", "SendIQElement", "EncodeIQ", "EncodeIQElement", "UnmarshalIQ", "UnmarshalIQElement", "IterIQ", "IterIQElement",
 		"SendMessage", "SendMessageElement", "EncodeMessage", "EncodeMessageElement",
